@@ -35,12 +35,18 @@ inductive FileState
   | fifo      -- a named pipe that has a writer: `os.Open` succeeds, `Seek` fails, `Read` never reports EOF
   | absent    -- nothing at the path, the directory exists
   | nodir     -- the directory does not exist
+  | directory -- the path is a directory: `os.Open` and `Seek` succeed, every `Read` fails (EISDIR / EINVAL)
   deriving DecidableEq, Repr
 
 /-- `os.Open(filename)` succeeds -/
 def opens : FileState → Bool
-  | .regular | .fifo => true
+  | .regular | .fifo | .directory => true
   | .absent | .nodir => false
+
+/-- `s.f.Read(buf)` answers bytes or EOF (false: a non-EOF error, which the follow reader's `Read` returns at once) -/
+def readable : FileState → Bool
+  | .directory => false
+  | _ => true
 
 /-- `watcher.Add(path.Dir(filename))` succeeds -/
 def watchable : FileState → Bool
@@ -86,12 +92,27 @@ def prologue (w : Follow) (st : FileState) (size : Nat) : Outcome :=
       { errors := if d.1 then 1 else 0, started := true, hasFile := hf, offset := d.2 }
     else { errors := 0, started := true, hasFile := hf, offset := 0 }
 
+/-- The first `Read` of the batching loop fails with a non-EOF error: the scanner reports it (`OnError` →
+    `incErrors`), `Scan()` answers false, the loop ends, the goroutine returns (and with one file the batch
+    channel is closed). -/
+def readFails (w : Follow) (st : FileState) (size : Nat) : Bool :=
+  let o := prologue w st size
+  o.started && o.hasFile && !readable st
+
+/-- the file is being followed: listed as active, channel open -/
+def following (w : Follow) (st : FileState) (size : Nat) : Bool :=
+  (prologue w st size).started && !readFails w st size
+
+/-- `ReadErrors()` of the batcher for this file -/
+def totalErrors (w : Follow) (st : FileState) (size : Nat) : Nat :=
+  (prologue w st size).errors + (if readFails w st size then 1 else 0)
+
 /-- What one followed path delivers in the scenario of the correspondence op `prologue`: `content` is there at
     the start (regular file / already in the pipe), `extra` is appended afterwards (or written as the new file
     when nothing was there). -/
 def delivers {α : Type} (w : Follow) (st : FileState) (content extra : List α) : List α :=
   let o := prologue w st content.length
-  if !o.started then []
+  if !following w st content.length then []
   else if o.hasFile then (content ++ extra).drop o.offset
   else extra
 
@@ -100,6 +121,7 @@ def parseState : String → Option FileState
   | "fifo" => some .fifo
   | "absent" => some .absent
   | "nodir" => some .nodir
+  | "directory" => some .directory
   | _ => none
 
 end Rare.C15.Open
